@@ -33,7 +33,8 @@ COMBOS = [["nackresp", "flexfec"], ["flexfec", "nackresp"], ["pdsend", "flexfec"
 
 
 def script(rng, kinds, n):
-    members = [{"k": k, "o": {"ivl": 1, "size": 64, "k": rng.choice([2, 3]), "n": 1, "rate": 50_000_000}} for k in kinds]
+    text = rng.choice([0, 1])        # packet dumps with a text formatter only / with a binary formatter
+    members = [{"k": k, "o": {"ivl": 1, "size": 64, "k": rng.choice([2, 3]), "n": 1, "rate": 50_000_000, "text": text}} for k in kinds]
     steps = [{"a": "bindw"}, {"a": "bindr"},
              {"a": "bindl", "s": 1, "nack": True, "twcc": 0, "rtx": rng.random() < 0.5, "fec": True},
              {"a": "bindm", "s": 2, "nack": True, "twcc": 0, "pli": False}]
@@ -47,7 +48,7 @@ def script(rng, kinds, n):
             if "nackresp" not in kinds:          # (the responder refuses payloads above 1460 bytes)
                 lens += [1461, 1461, 2000, 4000]
             steps.append({"a": "wrtp", "s": 1, "w": w % 65536, "id": ident, "len": rng.choice(lens),
-                          "shape": rng.choice([0, 0, 2, 3, 3]), "fail": False})
+                          "shape": rng.choice([0, 0, 2, 3, 3, 5, 5, 6]), "fail": False})
             sent.append(w % 65536)
         elif q < 0.8:
             r += 1
